@@ -42,6 +42,9 @@ PARTIALS.update({
     "inc/deep/t.html": "<t:{{ t }}{{ x }}>",
     "loop": "{% for i in a %}{{ i }}{% break %}{% endfor %}{% break %}after",
     "self": "{% render 'self' %}",
+    # partials that keep state while they render: what a reused (instead of fresh) context would leak
+    "st": "<{{ s }}{% assign s = 'set' %}{% increment c %}{% cycle 'a', 'b' %}{% capture k %}K{{ k }}{% endcapture %}{{ k }}>",
+    "stv": "<{{ v }}{% assign v = 'over' %}{{ forloop.index }}>",
 })
 
 DEDICATED: list[str] = [
@@ -77,6 +80,12 @@ DEDICATED: list[str] = [
     "{% for i in a %}{% include 'loop' %}{{ i }}{% endfor %}",
     "{% for i in a %}{% render 'loop' %}{{ i }}{% endfor %}",
     "{% render 'self' %}",
+    "{% render 'st' for a %}|{% render 'st' for a as s %}|{% render 'stv' for a as v %}",
+    "{% include 'st' for a %}|{% include 'stv' for a as v %}{{ v }}{{ s }}",
+    "{% for i in a %}{% render 'st' %}{% render 'stv' with i as v %}{% endfor %}",
+    "{% case x %}{% when 1, 1 %}a{% when x or 2 %}b{% when y.a, x, 'a b' %}c{% else %}d{% endcase %}",
+    "{% with v: 2, w: v %}{{ v }}{{ w }}{% endwith %}{% with w: v, v: 3 %}{{ w }}{% endwith %}",
+    "{{ y | first }}{{ y.b | last }}{{ nosuch | first }}{{ a | first | first }}",
     "{% macro m p, q: x %}[{{ p }}{{ q }}{{ args | join: ',' }}{{ kwargs.k }}]{% endmacro %}{% call m 1 %}{% call m x, 2, 3, k: y.a %}{% call nom %}",
     "{% with v: x, w: y.a %}{{ v }}{{ w }}{% with v: 2 %}{{ v }}{% endwith %}{{ v }}{% endwith %}{{ v }}",
     "{% translate count: x, v: y.a %}One {{ v }}{% plural %}Many {{ count }} {{ v }}{% endtranslate %}",
